@@ -277,8 +277,45 @@ def run(ctx):
         pv = fold.need(H2, "RE_IS_ILLEGAL_HEADER_VALUE")
         p = _bytes_probe(nm.pattern, nm.flags)
         ea = rx.end_anchor(p)
-        fn = m.func(f"{H2}._is_legal_header_name")
-        how = [c.func.attr for c in astq.calls(fn.node) if isinstance(c.func, ast.Attribute) and astq.text(c.func.value) == "RE_IS_LEGAL_HEADER_NAME"]
+        # how each pattern is applied, and by which functions: read off the effect rows of the module's functions (a validator is a
+        # function whose result is the truth of one application of the pattern to its parameter)
+        from ..rows import GenRule, effect_rows, helper_closure
+        from ..terms import destruct, subterms
+
+        def applications(row, const_name):
+            out = []
+            for k_, (t_, n_) in row.st.facts.items():
+                if not isinstance(k_, str):
+                    continue
+                op_, as_ = destruct(k_)
+                if op_ and op_.startswith(f"rx:{const_name}.") and len(as_) >= 1:
+                    out.append((op_.rsplit(".", 1)[1], as_[0], t_ if t_ is not None else (None if n_ is None else not n_)))
+            return out
+
+        def validators(const_name):
+            """{qual: (method, polarity)} for module functions f(x) that return the truth (polarity True) or the negated truth of PATTERN.method(x)"""
+            found = {}
+            for g in m.repo_funcs():
+                if g.module != H2 or g.cls is not None or len(g.params()) != 1:
+                    continue
+                if not any(isinstance(n_, ast.Name) and n_.id == const_name for n_ in ast.walk(g.node)):
+                    continue
+                rws = effect_rows(ctx, g, GenRule(ctx, H2), None)
+                pol = set()
+                hows = set()
+                for r_ in rws:
+                    ap = [a_ for a_ in applications(r_, const_name) if a_[1] == "p:" + g.params()[0]]
+                    if len(ap) != 1 or r_.out not in ("return:True", "return:False") or ap[0][2] is None or r_.ev:
+                        pol.add(None)
+                        continue
+                    hows.add(ap[0][0])
+                    pol.add((r_.out == "return:True") == ap[0][2])
+                if len(pol) == 1 and None not in pol and len(hows) == 1 and len(rws) == 2:
+                    found[g.qual] = (hows.pop(), pol.pop())
+            return found
+        name_validators = validators("RE_IS_LEGAL_HEADER_NAME")
+        value_validators = validators("RE_IS_ILLEGAL_HEADER_VALUE")
+        how = sorted({h_ for h_, _ in name_validators.values()})
         full = how == ["fullmatch"]
         ok = ea == "Z" or full
         ctx.ob(R6, H2, "RE_IS_LEGAL_HEADER_NAME end anchor", ok, "" if ok else f"ends in `$` under {how}: b'x-evil\\n' is accepted as a header name and emitted")
@@ -307,28 +344,55 @@ def run(ctx):
         ctx.ob(R6, H2, "value pattern rejects NUL, CR, LF anywhere", ok, f"anywhere-class {sorted(map(repr, anywhere))}")
         ctx.ob(R6, H2, "value pattern rejects leading SP/HTAB", {" ", "\t"} <= leading)
         ctx.ob(R6, H2, "value pattern rejects trailing SP/HTAB", {" ", "\t"} <= trailing)
-        fv = m.func(f"{H2}._is_illegal_header_value")
-        howv = [c.func.attr for c in astq.calls(fv.node) if isinstance(c.func, ast.Attribute) and astq.text(c.func.value) == "RE_IS_ILLEGAL_HEADER_VALUE"]
-        ctx.ob(R6, fv.qual, "the value pattern is searched over the whole value", howv == ["search"], str(howv))
+        howv = sorted({h_ for h_, _ in value_validators.values()})
         h2ph = m.func(f"{H2}.HTTP2Connection.putheader")
-        apps = [c for c in astq.calls(h2ph.node) if astq.call_text(c) == "self._headers.append"]
-        ctx.sites(R6, len(apps), 1, "append to the HTTP/2 header list")
-        checks = [n_ for n_ in astq.walk_fn(h2ph.node) if isinstance(n_, ast.If) and astq.all_paths_end_in(n_.body, lambda s: isinstance(s, ast.Raise))]
-        tn = [n_ for n_ in checks if "_is_legal_header_name(header)" in astq.text(n_.test) and astq.text(n_.test).startswith("not ")]
-        vloop = [n_ for n_ in astq.walk_fn(h2ph.node) if isinstance(n_, ast.For) and astq.text(n_.iter) == "values"]
-        # the value that is checked and appended is the loop variable (possibly re-bound to its encoded form)
-        vname = astq.text(vloop[0].target) if vloop else "value"
-        tv = [n_ for n_ in checks if astq.text(n_.test) == f"_is_illegal_header_value({vname})"]
-        for a in apps:
-            okn = bool(tn) and tn[0].lineno < a.lineno
-            okv = bool(tv) and tv[0].lineno < a.lineno and astq.enclosing(tv[0], ast.For) is astq.enclosing(a, ast.For)
-            ctx.ob(R6, h2ph.qual, "name check raises before the append", okn, node=a)
-            ctx.ob(R6, h2ph.qual, "value check raises before the append, for each value", okv, node=a)
-            ok = [astq.text(x) for x in a.args[0].elts] == ["header", vname] if isinstance(a.args[0], ast.Tuple) else False
-            ctx.ob(R6, h2ph.qual, "what is appended is what was checked", ok, node=a)
-        # the lower-casing happens before the name check (so the check sees what is sent)
-        low = [n_ for n_ in astq.walk_fn(h2ph.node) if isinstance(n_, ast.Assign) and astq.text(n_.value) == "header.lower()"]
-        ctx.ob(R6, h2ph.qual, "name is lower-cased before it is checked", bool(low) and bool(tn) and low[0].lineno < tn[0].lineno)
+        stop = tuple(q_.rsplit(".", 1)[1] for q_ in list(name_validators) + list(value_validators))
+        inl = helper_closure(m, [h2ph], stop=stop) - {h2ph.qual}
+        prow = effect_rows(ctx, h2ph, GenRule(ctx, H2, inline=frozenset(inl)), h2ph.clsq)
+
+        def verdicts(row, term, vals, const_name):
+            """truths this row has established about `term` through a validator function or a direct application of the pattern:
+            list of (method, says-it-matches)"""
+            out = []
+            for k_, (t_, n_) in row.st.facts.items():
+                if not isinstance(k_, str):
+                    continue
+                op_, as_ = destruct(k_)
+                if not op_ or not as_ or as_[0] != term:
+                    continue
+                if op_.startswith("rx:") and t_ is None and n_ is not None:
+                    t_ = not n_  # a match object is truthy, no match is None
+                if t_ is None:
+                    continue
+                q_ = f"{H2}.{op_}"
+                if q_ in vals:
+                    h_, pol_ = vals[q_]
+                    out.append((h_, t_ == pol_))
+                elif op_.startswith(f"rx:{const_name}."):
+                    out.append((op_.rsplit(".", 1)[1], t_))
+            return out
+        n_app = 0
+        for r_ in prow:
+            for e_ in r_.ev:
+                if not (e_[0] == "call" and isinstance(e_[1], str) and e_[1].startswith("self.") and e_[1].endswith((".append", ".insert", ".extend", ".__iadd__"))):
+                    continue
+                n_app += 1
+                arg = next((a_ for a_ in e_[2:] if isinstance(a_, str)), "")
+                op_, as_ = destruct(arg)
+                if op_ not in ("tuple", "list") or len(as_) != 2:
+                    ctx.ob(R6, h2ph.qual, "what is appended to the header list is a (name, value) pair", False, f"appended: {arg}", witness=r_.witness(), node=h2ph.node)
+                    continue
+                N_, V_ = as_
+                vn = verdicts(r_, N_, name_validators, "RE_IS_LEGAL_HEADER_NAME")
+                okn = any(matches and (h_ == "fullmatch" or ea == "Z") and (h_ in ("match", "fullmatch") or rx.start_anchor(p) is not None) for h_, matches in vn)
+                ctx.ob(R6, h2ph.qual, "the appended name is the very value that passed the name check", okn,
+                       "" if okn else f"`{N_}` is appended but the name pattern was established for {[k_ for k_ in r_.st.facts if isinstance(k_, str) and 'HEADER_NAME' in k_ or 'legal_header_name' in str(k_)]}", witness=r_.witness(), node=h2ph.node)
+                vv = verdicts(r_, V_, value_validators, "RE_IS_ILLEGAL_HEADER_VALUE")
+                okv = any((not matches) and h_ == "search" for h_, matches in vv)
+                ctx.ob(R6, h2ph.qual, "the appended value is the very value the illegal-value search did not match, for each value", okv,
+                       "" if okv else f"`{V_}` is appended but the value check was made on {[k_ for k_ in r_.st.facts if isinstance(k_, str) and 'HEADER_VALUE' in k_ or 'illegal_header_value' in str(k_)]}", witness=r_.witness(), node=h2ph.node)
+        ctx.sites(R6, n_app, 1, "append to the HTTP/2 header list")
+        ctx.ob(R6, H2, "the value pattern is searched over the whole value", howv == ["search"] or not value_validators, str(howv))
 
     # ------------------------------------------------------------------ R7 shared with C11-R6
     from .c11 import rule_r6
